@@ -83,30 +83,47 @@ class HashTable:
         )
         self._key_dtype = self._keys.dtype
 
+    def _as_key_dtype(self, keys):
+        """Return `keys` as an array of the key dtype and a mask of those the key dtype can represent.
+
+        Comparing integer queries with keys of another integer dtype in their promoted dtype goes
+        through float64 for (uint64, int64) and equates neighbouring keys above 2**53; a value
+        the key dtype cannot represent is not a key (it is replaced by 0 and masked out).
+        """
+        keys = np.asanyarray(keys)
+        representable = np.ones(keys.shape, dtype=bool)
+        if keys.dtype != self._key_dtype and keys.dtype.kind in "iu" and self._key_dtype.kind in "iu":
+            info = np.iinfo(self._key_dtype)
+            representable = (keys >= info.min) & (keys <= info.max)
+            keys = np.where(representable, keys, 0).astype(self._key_dtype)
+        return keys, representable
+
     def _get_indices(self, keys):
         if isinstance(keys, Number):
             h = self._get_hash(keys)
             possible_keys = self._keys[h]
             offset = np.flatnonzero(possible_keys == keys)
             return h, offset
-        keys = np.asanyarray(keys)
+        queried = np.asanyarray(keys)
+        keys, representable = self._as_key_dtype(keys)
         hashes = self._get_hash(keys)
         possible_keys = self._keys[hashes]
         rows, offsets = (possible_keys == keys[:, None]).nonzero()
-        if offsets.size < keys.size:
+        if offsets.size < keys.size or not np.all(representable):
             missing_mask = np.ones(len(keys), dtype=bool)
             missing_mask[rows] = False
-            raise IndexError(f'Keys {keys[missing_mask]} missing from hash_table, available: {self._keys.ravel()}')
+            missing_mask |= ~representable
+            raise IndexError(f'Keys {queried[missing_mask]} missing from hash_table, available: {self._keys.ravel()}')
         return hashes, offsets
 
     def contains(self, keys):
-        keys = np.asanyarray(keys)
+        keys, representable = self._as_key_dtype(keys)
         hashes = self._get_hash(keys)
         possible_keys = self._keys[hashes]
         rows, offsets = (possible_keys == keys[:, None]).nonzero()
         missing_mask = np.ones(len(keys), dtype=bool)
         missing_mask[rows] = False
-        return ~missing_mask
+        return ~missing_mask & representable
 
     def __getitem__(self, keys):
         if isinstance(self._values, Number):
@@ -303,7 +320,7 @@ class HashSet(HashTable):
             h = self._get_hash(keys)
             possible_keys = self._keys[h]
             return np.any(possible_keys == keys)
-        keys = np.asanyarray(keys)
+        keys, representable = self._as_key_dtype(keys)
         hashes = self._get_hash(keys)
         possible_keys = self._keys[hashes]
-        return np.any(possible_keys == keys[:, None], axis=-1)
+        return np.any(possible_keys == keys[:, None], axis=-1) & representable
